@@ -742,10 +742,15 @@ def bvm_history(b, rnd, nops, tier):
                     ps.update(rnd.sample(ones_at, min(len(ones_at), rnd.choice([1, 2]))))
                 ps.add(rnd.randrange(n))
             ps = sorted(ps)
+            r = rnd.random()
+            if ps and r < 0.25:
+                # the same position more than once / any order: still the set of positions
+                ps = ps + [rnd.choice(ps) for _ in range(rnd.choice([1, 2]))]
+                rnd.shuffle(ps)
             b.mut(o, "extend_positions", pos=ps)
             if ps:
-                if ps[-1] + 1 > len(bits):
-                    bits += [0] * (ps[-1] + 1 - len(bits))
+                if max(ps) + 1 > len(bits):
+                    bits += [0] * (max(ps) + 1 - len(bits))
                 for p in ps:
                     bits[p] = 1
         elif op == "roundtrip":
@@ -1326,6 +1331,15 @@ def camp_c19(rnd, tier):
                 v2[j] ^= 1
                 d = b.newb(kind, ps[0], Seqn.from_values(v2))
                 b.eq(objs[0], d)
+            if kind in ("BV", "BVM") and ends_with_one and len(vals) <= 3000:
+                # the same set of positions listed with repetitions and in another order
+                ones_at = [i for i, v in enumerate(vals) if v == 1]
+                lst = ones_at + [rnd.choice(ones_at) for _ in range(rnd.choice([1, 3]))]
+                rnd.shuffle(lst)
+                u = b.newb(kind, "positions", ty=rnd.choice(["usize", "u32", "i64"]), pos=lst)
+                b.eq(objs[0], u)
+                b.meta(u)
+                rel_all(b, objs[0], u, "path", "B", s, "usize", kind, rnd)
     return b
 
 
